@@ -51,9 +51,25 @@ SysEvOK(ev) ==
                /\ LET R == Dense(ev.res, ev.n) IN IsColumnPermutation(H, R) /\ Invertible(TailM(R))     \* the converted matrix (C09)
           ELSE CleanFailure(ev)
 
+\* The file `encode' must write, computed by the specification itself: EncodeStream!Expected made concrete - for each COMPLETE word
+\* of K = n - r input bytes (a byte is a one iff it equals 1) the codeword of Encoder.tla, punctured by Chain.tla; a trailing partial
+\* word contributes nothing.
+RECURSIVE EncodedFile(_, _, _, _)
+EncodedFile(enc, input, P, w) ==
+  IF w = 0 THEN <<>>
+  ELSE LET K   == Len(enc.gen[1])
+           msg == [t \in 1..K |-> IF input[(w - 1) * K + t] = 1 THEN 1 ELSE 0]
+           cw  == Encode(enc, msg)
+           pun == Ch!Puncture(cw, P)
+           pre == EncodedFile(enc, input, P, w - 1)
+       IN pre \o pun
 EncodeEvOK(ev) ==
   /\ ev.o = "ok"
-  /\ IF ev.fits THEN Success(ev) /\ ev.out = ev.ref          \* for each complete word exactly the (punctured) codeword, nothing more
+  /\ IF ev.fits
+     THEN /\ Success(ev) /\ ev.out = ev.ref          \* for each complete word exactly the (punctured) codeword, nothing more
+          /\ LET H == Dense(ev.rows, ev.n)  enc == FromH(H)  K == ev.n - Len(ev.rows)
+                 P == [t \in 1..Len(ev.patb) |-> ev.patb[t] = 1] IN
+             enc.ok /\ ev.out = EncodedFile(enc, ev.input, P, Len(ev.input) \div K)
      ELSE CleanFailure(ev)
 
 Abs(x) == IF x < 0 THEN -x ELSE x
